@@ -82,6 +82,10 @@ impl Range {
             (id, [GenericArg::Value(min), GenericArg::Value(max)])
                 if *id == BoundedIntType::id() =>
             {
+                // The info may come from a declaration that was not specialized (validated) yet.
+                if min > max {
+                    return Err(SpecializationError::UnsupportedGenericArg);
+                }
                 Self::closed(min.clone(), max.clone())
             }
             _ => return Err(SpecializationError::UnsupportedGenericArg),
